@@ -1,0 +1,26 @@
+//go:build verif
+
+package rust
+
+// Contracts for the govc verifier (/verif). Comment-only file: it contains no
+// executable code and is compiled only with the build tag `verif`.
+
+// Hexadecimal / decimal digits of Cedar string escapes are the ASCII ones.
+//@ spec func asciiHex(ch int) bool = (48 <= ch && ch <= 57) || (65 <= ch && ch <= 70) || (97 <= ch && ch <= 102)
+
+//@ func IsDecimal
+//@   props C12
+//@   results r
+//@   ensures r == (48 <= ch && ch <= 57)
+
+//@ func IsHexadecimal
+//@   props C12
+//@   results r
+//@   ensures r == asciiHex(ch)
+
+//@ func digitVal
+//@   props C12
+//@   arith checked
+//@   results r
+//@   ensures asciiHex(ch) ==> (0 <= r && r < 16 && r == (ch <= 57 ? ch - 48 : (ch <= 70 ? ch - 55 : ch - 87)))
+//@   ensures !asciiHex(ch) ==> r == 16
